@@ -634,7 +634,9 @@ pub fn explore(sc: &Scenario) -> RunRecord {
                 let start = rpcs.iter().filter(|r| r.comp == c && r.from == p && r.kind == RpcKind::Run && r.fate != "unused").map(|r| r.t_issue).min();
                 let Some(start) = start else { continue };
                 let mut last = start;
-                for r in rpcs.iter().filter(|r| r.comp == c && r.from == p && r.fate != "unused") {
+                // (answers are recorded with the answering party as `from`, but at the time the caller saw
+                // them - possibly an error from a state machine that has long stopped - so they do not count)
+                for r in rpcs.iter().filter(|r| r.comp == c && r.from == p && r.fate != "unused" && r.kind != RpcKind::Reply) {
                     last = last.max(r.t_issue);
                 }
                 for o in outputs.iter().filter(|o| o.comp == c && o.party == p) {
